@@ -65,6 +65,15 @@ CHECKS = {
          "The C03 scene space extended with non-constant gradients and filtered images, all 28 x 28 ordered blend-mode pairs in two consecutive draws (the output of one is the destination of the next), layer scenes with every layer blend x every inner mode, nested layers, and the Color / from_unpremultiplied_argb conversions over 17^4 channel tuples: after every call every pixel of the surface and of every open layer satisfies r,g,b <= a.",
          "Only valid premultiplied destinations, solid colours, texels and stops are used; the dependency's own debug assertion (c <= a in pack_argb32) firing inside a non-separable blend is a listed known finding.",
          "DESIGN.md section 4, C18"),
+
+ "C12": ("bounded exhaustive enumeration of gradient geometries x stops x spreads x alphas x transforms; every pixel compared with an analytic f64 gradient model within the property's tolerance",
+         "Linear (all ordered pairs of grid points, 1 px and 40 px extents), radial (radii 1..64), two-circle (concentric, eccentric, touching, tiny inner circle) and sweep gradients x 3-5 stop sets (incl. hard stops and single stop) x Pad/Repeat/Reflect x alphas x 2-8 transforms, drawn as full-surface Src fills on 24x24: each channel within 4 of the range of the analytic colour for t within 3/255 (+|t|/255) of the pixel's t; exact end colour under Pad; transparent where no circle exists.",
+         "Pixels within 1-1.5 px of a discontinuity of t are not asserted; the sampling position is admitted within 1/1000 px; the dependency's sweep start-angle bias is a listed known finding.",
+         "DESIGN.md section 4, C12"),
+ "C13": ("bounded exhaustive enumeration of images x extend x filter x alpha x transforms; every fully covered pixel compared with a reference sampler",
+         "Images 1x1..4x1 with all-distinct texels x Pad/Repeat x Nearest/Bilinear x alpha {1, 0.5, 0} x 9 CTMs x 46-102 source transforms (all integer translations in [-4,4]^2, quarter-pixel translations, scales, rotations) on 6x5 and 9x7, plus draw_image_at / draw_image_with_size_at at 81 positions x 5 sizes: exact texel for Nearest and integer translations, the 4-bit-weighted formula for Bilinear, edge clamp / modular wrap beyond the image, alpha scaling.",
+         "Admits the neighbouring texel / weight step within the 16.16 coordinate slack; only pixels with full reference coverage are asserted.",
+         "DESIGN.md section 4, C13"),
 }
 NOT_YET = "check not built yet in this round (design in DESIGN.md section 4); will be claimed once its explorer exists"
 
